@@ -37,10 +37,27 @@ try:
             r = sh("python3 /verif/tools/baseline.py %s" % wt); res["suite_ok"] = r.returncode == 0; res["suite"] = r.stdout.strip().splitlines()[:3]
         for c in checks:
             t0 = time.time()
-            r = sh("./check %s %s" % (c, "thorough" if thorough else "quick"), env=dict(os.environ, VERIF_REPO=wt), cwd="/verif")
+            scale = [a.split("=")[1] for a in rest if a.startswith("--scale=")]
+            r = sh("./check %s %s" % (c, "thorough" if thorough else "quick"),
+                   env=dict(os.environ, VERIF_REPO=wt, VERIF_BUDGET_SCALE=scale[0] if scale else "1"), cwd="/verif")
             viol = [l for l in r.stdout.splitlines() if l.startswith("VIOLATION")]
             res["check_" + c] = {"exit": r.returncode, "violations": len(viol), "first": viol[:2], "s": round(time.time() - t0, 1),
                                  "detail": [l for l in r.stdout.splitlines() if l.startswith("  clause")][:3]}
+            # regression tier: keep the smallest minimised reproduction as a committed replay (must hold on the unchanged tree)
+            if r.returncode == 1 and "--adopt" in rest:
+                import glob
+                new = sorted(glob.glob(os.path.join(wt + ".vpout", "replays", "new", c, "*.json")), key=os.path.getsize)
+                dstdir = os.path.join("/verif/replays", c)
+                dst = os.path.join(dstdir, "seed_%s.json" % name)
+                if new and not os.path.exists(dst):
+                    os.makedirs(dstdir, exist_ok=True)
+                    shutil.copy(new[0], dst)
+                    chk = sh("./check --replay %s" % dst, cwd="/verif")
+                    if chk.returncode != 0:
+                        os.remove(dst)
+                        res["check_" + c]["replay"] = "not kept (does not hold on the unchanged tree)"
+                    else:
+                        res["check_" + c]["replay"] = os.path.relpath(dst, "/verif")
 finally:
     sh("git -C /repo worktree remove --force %s" % wt)
     shutil.rmtree(wt, ignore_errors=True)
